@@ -265,7 +265,21 @@ pub fn gen_forest(rng: &mut Rng, cfg: &DomCfg) -> Forest {
         for _ in 0..k {
             if !descs.is_empty() && !rng.chance(cfg.unknown_prop_pct) {
                 let p = *rng.pick(&descs);
-                let v = gen_prop_value(rng, p, n, cfg.legal, cfg.exact_types);
+                let mut v = gen_prop_value(rng, p, n, cfg.legal, cfg.exact_types);
+                if cfg.strict && rng.chance(12) {
+                    // a value of a kind both formats coerce to the declared type (inside C06's comparison since the
+                    // value-level theorems cross_int32_as_int64 / cross_float32_as_float64 / cross_color3_as_color3uint8)
+                    v = match v {
+                        Variant::Float64(x) => {
+                            // not a short dyadic number in most draws, so that a widening through text would show
+                            let narrow = if rng.chance(50) { x as f32 } else { [0.1f32, -2.7, 3.4e38, 1.0e-40, 16777217.0][rng.below(5) as usize] };
+                            Variant::Float32(narrow)
+                        }
+                        Variant::Int64(x) => Variant::Int32(if rng.chance(50) { x as i32 } else { [i32::MIN, i32::MAX, -1, 1 << 30, -(1 << 30) - 1][rng.below(5) as usize] }),
+                        Variant::Color3uint8(c) => Variant::Color3(rbx_dom_weak::types::Color3::new(c.r as f32 / 255.0, c.g as f32 / 255.0 + 0.001, c.b as f32 / 255.0)),
+                        other => other,
+                    };
+                }
                 props.push((p.name.to_string(), v));
             } else {
                 let name = if rng.chance(80) {
